@@ -12,6 +12,14 @@
       expectation of the session model; a divergence is logged, never a verdict)
   (4) every distinct panic signature is re-run alone WITHOUT the harness's recover: the process must die
   (5) binding self-test: recorded fields of accepted trace lines are corrupted and must be rejected
+  (6) request sequences: lock-family histories on engine S, panics judged by spec/mon/MonCrash.tla
+  (7) the OUTPUT path: spec/OutBuf.tla models the 4096-byte writer buffer of a binary connection as coded (buffered batches,
+      flush rule, direct writes); TLC checks it exhaustively at small constants (spec/OutBufMC.tla: every reply size, an
+      asynchronous replier), enumerates at the real constants every batch shape whose replies end at each position relative
+      to the buffer boundary (spec/OutBufGen.tla); lib/outbufconc.py turns each behaviour into pipelined request frames whose
+      replies have exactly these sizes; spec/mon/MonOutBuf.tla judges the recorded reply streams (C13 clauses; completeness
+      of the reply stream as observation; sizes of the server's writes and reply order as refinement of the model)
+Every server process runs under an address-space limit (run_child): a multi-gigabyte allocation ends that process, not the machine.
 """
 import json, os, random, re, shutil, time, subprocess, concurrent.futures as cf
 import vbuild, vtlc, engine, checklib, protoconc
@@ -21,16 +29,20 @@ PROPS = ["C13"]
 
 MANIFEST = {"C13": dict(
     level="exploration", design="5/C13", engine="W",
-    technique="TLA+ input-class session model (ProtoSession) enumerated exhaustively by TLC -> every path replayed as bytes into the real Server.handle; traces validated by TLC against the trace spec MonProto",
+    technique="TLA+ input-class session model (ProtoSession) and implementation-shaped output-buffer model (OutBuf) enumerated exhaustively by TLC -> every path / reply-size pattern replayed as bytes into the real Server.handle; traces validated by TLC against the trace specs MonProto / MonOutBuf",
     text="TLC enumerates every path (session-level prefix, then one class) over an alphabet of several thousand input classes: every binary command type x flag / db / field class, "
          "value frames of every boundary length (0..65, fitted, 1 MiB cap, cap+1, 2^32-1, truncated) x value-operation header (stage, type, data flag) x body class incl. nested EXECUTE / PIPELINE, "
          "CALL methods x content length x protobuf payload class, every registered text command x positional-argument class x option keyword in every tail position, RESP-level malformations, "
-         "seeded random / mutated streams, fragmentation classes (byte-wise, all 2-way splits, header/length splits, split first frame). Each path is concretised into bytes and fed to the real "
+         "seeded random / mutated streams, fragmentation classes (byte-wise, all 2-way splits, header/length splits, split first frame); and, for the output side, every pipelined batch shape whose replies "
+         "(with / without value payload, PING) end at each position relative to the boundary of the connection's 4096-byte writer buffer (TLA+ model OutBuf of the buffer as coded, checked exhaustively at small "
+         "constants, patterns enumerated at the real constants: every residue inside the last 64 bytes, exactly full, one byte over, values that bypass the buffer up to 64 KiB; one write, split writes, one frame per "
+         "write; text GET / LOCK replies around 1024 and 4096 bytes). Each path is concretised into bytes and fed to the real "
          "connection code (protocol sniffing, binary and text protocol objects, lock engine, admin commands) of a real leader instance with its sweepers running; a panic of the connection goroutine "
          "(recovered only at the very top of the goroutine, where the server has nothing, and re-run without the recover to see the process die), a death of the process, or a second / fresh connection "
          "that is no longer served is a violation, judged by the TLA+ trace spec. Exploration level: coverage is per input class, not per byte value.",
     note="Trusted: TLC; lib/protoconc.py (class -> bytes); the in-package driver (net.Pipe instead of TCP: one write = at most one read, no kernel buffering; server built with tag verif, wall-clock sweepers on); "
-         "panic site = first frame of the stack inside slock. Not generated: SHUTDOWN and SLAVEOF host port (they stop / demote the server by design), arbiter (replset) CALL methods (instance is not a replset member), "
+         "panic site = first frame of the stack inside slock; every server process has an address-space limit of 4 GiB (VERIF_PROTO_MEM_MB): an allocation that does not fit ends the process as it would on a host of that size. "
+         "A truncated / garbled reply on the client's own connection is recorded as an observation, not as a C13 violation. Not generated: SHUTDOWN and SLAVEOF host port (they stop / demote the server by design), arbiter (replset) CALL methods (instance is not a replset member), "
          "follower / transparency protocol objects. TLA+ cannot quantify over byte values: absence of a panic is shown for the class representatives and the seeded variants only.")}
 
 GEN_CFG = '''SPECIFICATION Spec
@@ -61,7 +73,8 @@ CHECK_DEADLOCK FALSE
 '''
 
 SPECDIRS = [os.path.join(VERIF, "spec"), os.path.join(VERIF, "spec", "mon")]
-NSHARDS = 48
+# the children mostly sleep (read windows, close waits, probes): three per core, all shards at once
+NSHARDS = 3 * engine.NCPU
 
 # ------------------------------------------------------------------ (1) generator
 
@@ -130,6 +143,20 @@ def death_info(text):
         break
     return kind_of(msg), site, msg[:300]
 
+# Every server process of engine W runs with an address-space limit (ulimit -v): the machine is shared, and a server that
+# answers one small frame with a multi-gigabyte allocation must end itself (Go: "fatal error: out of memory", a death like
+# any other: judged by the trace spec, confirmed alone under the same limit), not the machine.  A fresh child has ~2 GiB of
+# address space mapped; the limit leaves it 2 GiB more.  VERIF_PROTO_MEM_MB=0 switches the limit off.
+MEM_MB = int(os.environ.get("VERIF_PROTO_MEM_MB", "4096"))
+
+def run_child(binpath, env, cwd, timeout):
+    e = dict(vbuild.GOENV)
+    e.update(env)
+    args = [binpath, "-test.run", "^TestVerifProto$", "-test.count=1", "-test.timeout", str(timeout) + "s"]
+    if MEM_MB > 0:
+        args = ["/bin/sh", "-c", 'ulimit -v %d; exec "$0" "$@"' % (MEM_MB * 1024)] + args
+    return subprocess.run(args, cwd=cwd, env=e, capture_output=True, text=True, timeout=timeout + 30)
+
 def read_lines(path):
     if not os.path.exists(path):
         return []
@@ -152,7 +179,7 @@ def run_shard(binpath, fin, fout, workdir, linger, norecover=False, timeout=1500
             env["VERIF_PROTO_NORECOVER"] = "1"
         njournal = len(read_lines(fout + ".journal"))
         try:
-            p = vbuild.run_test(binpath, "TestVerifProto", env, cwd=workdir, timeout=timeout)
+            p = run_child(binpath, env, workdir, timeout)
         except subprocess.TimeoutExpired:
             raise InfraError(f"engine W child timed out on {fin}")
         if p.returncode == 0 and "PASS" in p.stdout:
@@ -215,7 +242,7 @@ def run_real(binpath, files, workdir, linger):
     res = []
     def one(job):
         return job, run_shard(binpath, job[0], job[1], workdir, linger)
-    with cf.ThreadPoolExecutor(max_workers=engine.NCPU) as ex:
+    with cf.ThreadPoolExecutor(max_workers=NSHARDS) as ex:
         for job, deaths in ex.map(one, files):
             res.append((job, deaths))
     return res
@@ -313,7 +340,7 @@ def confirm(binpath, deliv, site, workdir, tag, linger=300):
         fh.write(json.dumps(deliv) + "\n")
     env = {"VERIF_IN": fin, "VERIF_OUT": fout, "VERIF_PROTO_NORECOVER": "1", "VERIF_PROTO_LINGER_MS": str(linger), "TMPDIR": d}
     try:
-        p = vbuild.run_test(binpath, "TestVerifProto", env, cwd=d, timeout=180)
+        p = run_child(binpath, env, d, 180)
     except subprocess.TimeoutExpired:
         return {"died": False, "why": "timeout"}
     if p.returncode == 0:
@@ -332,7 +359,7 @@ def reproduce_probe_failure(binpath, deliv, workdir, tag):
         fh.write(json.dumps(deliv) + "\n")
     env = {"VERIF_IN": fin, "VERIF_OUT": fout, "VERIF_PROTO_LINGER_MS": "100", "TMPDIR": d}
     try:
-        p = vbuild.run_test(binpath, "TestVerifProto", env, cwd=d, timeout=180)
+        p = run_child(binpath, env, d, 180)
     except subprocess.TimeoutExpired:
         return {"reproduced": False, "why": "timeout"}
     for ln in read_lines(fout):
@@ -341,6 +368,95 @@ def reproduce_probe_failure(binpath, deliv, workdir, tag):
             bad = e["done"] and not e["panic"] and not (e["probe"] == "ok" and e["probe2"] == "ok")
             return {"reproduced": bad, "old": e["probe"], "fresh": e["probe2"]}
     return {"reproduced": False, "why": "no trace line"}
+
+# ------------------------------------------------------------------ verdicts
+
+def judge(prop, all_viols, lookup, binp, wd, out):
+    """verdicts from the VIOL lines of a trace spec: one violation per distinct (clause, site, kind), with a count and the first
+    delivery as replay.  A panic / death counts only when the process dies at the same site with the delivery re-run alone
+    without the harness's recover; an unanswered probe only when it reproduces alone.  Appends to out.viols."""
+    # ---- verdicts: one violation per distinct (clause, site, kind), with a count and the first delivery as replay
+    groups = {}
+    for v in all_viols:
+        det = v["detail"]
+        if v["code"] in ("connection-goroutine-panic", "server-process-died"):
+            key = (v["code"], det["site"], det["kind"])
+        else:
+            key = (v["code"], det.get("old"), det.get("fresh"))
+        groups.setdefault(key, []).append(v)
+    confirmations = {}
+    jobs = []
+    for key, vs in sorted(groups.items(), key=lambda kv: str(kv[0])):
+        first = vs[0]
+        base = first["name"].replace(" (+later)", "")
+        deliv = lookup(base)
+        if key[0] == "connection-goroutine-panic":
+            # the recovered panic is re-run alone WITHOUT the recover (one server instance in the process, as in
+            # production): the process must die at the same site; up to 3 occurrences are tried
+            for v in vs[:3]:
+                dv = lookup(v["name"])
+                if dv is not None:
+                    jobs.append((key, dv, v["name"]))
+        if key[0] == "server-process-died":
+            # attribution of a process death to the delivery in flight is a guess (the fault may sit in another goroutine,
+            # the machine may be the culprit): it is a verdict only if the process dies again, at the same site, when the
+            # delivery is re-run alone on a fresh server (3 s linger for timers); up to 4 occurrences are tried
+            for v in vs[:4]:
+                dv = lookup(v["name"].replace(" (+later)", ""))
+                if dv is not None:
+                    jobs.append((key, dv, v["name"]))
+    with cf.ThreadPoolExecutor(max_workers=engine.NCPU) as ex:
+        def cjob(j):
+            return confirm(binp, j[1], j[0][1], wd, "%d_%s" % (abs(hash(j[0])), abs(hash(j[2]))), linger=3000 if j[0][0] == "server-process-died" else 300)
+        for (key, deliv, nm), c in zip(jobs, ex.map(cjob, jobs)):
+            c["delivery"] = nm
+            if key not in confirmations or (c.get("died") and c.get("same_site") and not (confirmations[key].get("died") and confirmations[key].get("same_site"))):
+                confirmations[key] = c
+    unreproduced = []
+    unreproduced_deaths = []
+    for key, vs in sorted(groups.items(), key=lambda kv: str(kv[0])):
+        first = vs[0]
+        base = first["name"].replace(" (+later)", "")
+        deliv = lookup(base)
+        clause = key[0]
+        if clause == "other-connection-not-served":
+            # timing-sensitive observation: every occurrence is re-run alone; only reproduced ones are verdicts
+            keep = []
+            for v in vs[:6]:
+                dv = lookup(v["name"])
+                r = reproduce_probe_failure(binp, dv, wd, str(len(unreproduced) + len(keep))) if dv else {"reproduced": False, "why": "delivery not found"}
+                if r.get("reproduced"):
+                    keep.append((v, dv))
+                    break
+                unreproduced.append({"delivery": v["name"], "detail": v["detail"], "rerun": r})
+            if not keep:
+                continue
+            first, deliv = keep[0]
+        if clause in ("server-process-died", "connection-goroutine-panic"):
+            c = confirmations.get(key) or {}
+            if not (c.get("died") and c.get("same_site")):
+                unreproduced_deaths.append({"signature": list(key), "count": len(vs), "deliveries": [v["name"] for v in vs[:4]], "rerun": c})
+                continue
+            first = next((v for v in vs if v["name"] == c.get("delivery")), first)
+            deliv = lookup(first["name"].replace(" (+later)", ""))
+        if clause in ("connection-goroutine-panic", "server-process-died"):
+            code = f"{clause}@{key[1]}"
+            detail = {"site": key[1], "kind": key[2]}
+        else:
+            code = clause
+            detail = dict(first["detail"])
+        viol = {"prop": prop, "code": code, "clause": clause, "detail": detail, "count": len(vs), "first_delivery": first["name"],
+                "classes": [s["cls"] for s in deliv["steps"]] if deliv else [],
+                "process_death_confirmed": confirmations.get(key)}
+        replay = None
+        if deliv:
+            replay = {"delivery": {k: deliv[k] for k in ("name", "steps", "hold", "path")},
+                      "how": "VERIF_IN=<file with this delivery as one ndjson line> VERIF_OUT=out.ndjson VERIF_PROTO_NORECOVER=1 server.test -test.run TestVerifProto"}
+            for s in replay["delivery"]["steps"]:
+                if len(s["hex"]) > 4096:
+                    s["hex_note"] = "long"
+        out.viols.append((viol, replay))
+    return groups, confirmations, unreproduced, unreproduced_deaths
 
 # ------------------------------------------------------------------ the check
 
@@ -352,18 +468,19 @@ TIERS = {
                  dict(prefix=2, detail="core", tail=0, pairs=1, opdepth=0, variants=2, frag=0)],
 }
 
-def run_bytes(prop, tier, seed):
+def run_bytes(prop, tier, seed, binp=None):
     out = checklib.Outcome()
     out.level = "exploration"
     wd = vbuild.scratch(f"vf_{prop}_")
     try:
         quick = tier == "quick"
-        binp = vbuild.build_inpkg("server", wd)
+        binp = binp or vbuild.build_inpkg("server", wd)
         tot = dict(paths=0, deliveries=0, states=0, transitions=0, gen_wall=0.0, run_wall=0.0, mon_wall=0.0, mon_states=0, lines=0)
         census_all, all_viols, all_divs, samples, stest = [], [], [], [], None
         classes_seen, detail_seen, resp_hist = set(), set(), {}
         deaths_all = []
         byname = {}
+        huge, unsolicited = {}, [0]
         for ri, params in enumerate(TIERS[tier]):
             paths, census, st, gwall = generate(params, os.path.join(wd, f"gen{ri}"), 600 if quick else 3000)
             census_all.append(dict(census, params=params, paths=len(paths), states=st["distinct"], transitions=st["generated"], wall_s=round(gwall, 1)))
@@ -423,19 +540,14 @@ def run_bytes(prop, tier, seed):
                     for o in e.get("obs", []):
                         key = o["r"] + ("+closed" if o["closed"] else "") + ("+blocked" if o["blocked"] else "")
                         resp_hist[key] = resp_hist.get(key, 0) + 1
+                    if e.get("alloc_mb", 0) >= 1024 and e.get("cls"):
+                        huge.setdefault(e["cls"][-1], []).append((e["alloc_mb"], e["name"]))
+                    if e.get("probe_unsolicited"):
+                        unsolicited[0] += e["probe_unsolicited"]
             if ri == 0:
                 stest = selftest(traces, params, os.path.join(wd, "selftest"))
                 if stest["rejected"] is not True:
                     raise InfraError("self-test failed: the trace spec accepted a corrupted trace: " + json.dumps(stest))
-        # ---- verdicts: one violation per distinct (clause, site, kind), with a count and the first delivery as replay
-        groups = {}
-        for v in all_viols:
-            det = v["detail"]
-            if v["code"] in ("connection-goroutine-panic", "server-process-died"):
-                key = (v["code"], det["site"], det["kind"])
-            else:
-                key = (v["code"], det.get("old"), det.get("fresh"))
-            groups.setdefault(key, []).append(v)
         def lookup(name):
             loc = byname.get(name)
             if loc is None:
@@ -445,78 +557,7 @@ def run_bytes(prop, tier, seed):
                     if i == loc[1]:
                         return json.loads(ln)
             return None
-        confirmations = {}
-        jobs = []
-        for key, vs in sorted(groups.items(), key=lambda kv: str(kv[0])):
-            first = vs[0]
-            base = first["name"].replace(" (+later)", "")
-            deliv = lookup(base)
-            if key[0] == "connection-goroutine-panic":
-                # the recovered panic is re-run alone WITHOUT the recover (one server instance in the process, as in
-                # production): the process must die at the same site; up to 3 occurrences are tried
-                for v in vs[:3]:
-                    dv = lookup(v["name"])
-                    if dv is not None:
-                        jobs.append((key, dv, v["name"]))
-            if key[0] == "server-process-died":
-                # attribution of a process death to the delivery in flight is a guess (the fault may sit in another goroutine,
-                # the machine may be the culprit): it is a verdict only if the process dies again, at the same site, when the
-                # delivery is re-run alone on a fresh server (3 s linger for timers); up to 4 occurrences are tried
-                for v in vs[:4]:
-                    dv = lookup(v["name"].replace(" (+later)", ""))
-                    if dv is not None:
-                        jobs.append((key, dv, v["name"]))
-        with cf.ThreadPoolExecutor(max_workers=engine.NCPU) as ex:
-            def cjob(j):
-                return confirm(binp, j[1], j[0][1], wd, "%d_%s" % (abs(hash(j[0])), abs(hash(j[2]))), linger=3000 if j[0][0] == "server-process-died" else 300)
-            for (key, deliv, nm), c in zip(jobs, ex.map(cjob, jobs)):
-                c["delivery"] = nm
-                if key not in confirmations or (c.get("died") and c.get("same_site") and not (confirmations[key].get("died") and confirmations[key].get("same_site"))):
-                    confirmations[key] = c
-        unreproduced = []
-        unreproduced_deaths = []
-        for key, vs in sorted(groups.items(), key=lambda kv: str(kv[0])):
-            first = vs[0]
-            base = first["name"].replace(" (+later)", "")
-            deliv = lookup(base)
-            clause = key[0]
-            if clause == "other-connection-not-served":
-                # timing-sensitive observation: every occurrence is re-run alone; only reproduced ones are verdicts
-                keep = []
-                for v in vs[:6]:
-                    dv = lookup(v["name"])
-                    r = reproduce_probe_failure(binp, dv, wd, str(len(unreproduced) + len(keep))) if dv else {"reproduced": False, "why": "delivery not found"}
-                    if r.get("reproduced"):
-                        keep.append((v, dv))
-                        break
-                    unreproduced.append({"delivery": v["name"], "detail": v["detail"], "rerun": r})
-                if not keep:
-                    continue
-                first, deliv = keep[0]
-            if clause in ("server-process-died", "connection-goroutine-panic"):
-                c = confirmations.get(key) or {}
-                if not (c.get("died") and c.get("same_site")):
-                    unreproduced_deaths.append({"signature": list(key), "count": len(vs), "deliveries": [v["name"] for v in vs[:4]], "rerun": c})
-                    continue
-                first = next((v for v in vs if v["name"] == c.get("delivery")), first)
-                deliv = lookup(first["name"].replace(" (+later)", ""))
-            if clause in ("connection-goroutine-panic", "server-process-died"):
-                code = f"{clause}@{key[1]}"
-                detail = {"site": key[1], "kind": key[2]}
-            else:
-                code = clause
-                detail = dict(first["detail"])
-            viol = {"prop": prop, "code": code, "clause": clause, "detail": detail, "count": len(vs), "first_delivery": first["name"],
-                    "classes": [s["cls"] for s in deliv["steps"]] if deliv else [],
-                    "process_death_confirmed": confirmations.get(key)}
-            replay = None
-            if deliv:
-                replay = {"delivery": {k: deliv[k] for k in ("name", "steps", "hold", "path")},
-                          "how": "VERIF_IN=<file with this delivery as one ndjson line> VERIF_OUT=out.ndjson VERIF_PROTO_NORECOVER=1 server.test -test.run TestVerifProto"}
-                for s in replay["delivery"]["steps"]:
-                    if len(s["hex"]) > 4096:
-                        s["hex_note"] = "long"
-            out.viols.append((viol, replay))
+        groups, confirmations, unreproduced, unreproduced_deaths = judge(prop, all_viols, lookup, binp, wd, out)
         divkeys = {}
         for dv in all_divs:
             k = (dv["fam"], dv["k"], dv["mode"], dv["obs"]["r"], dv["obs"]["closed"])
@@ -539,6 +580,11 @@ def run_bytes(prop, tier, seed):
             "refinement_divergences": {"count": len(all_divs), "distinct": len(divkeys),
                                        "samples": [v[0] for v in list(divkeys.values())[:8]]},
             "unreproduced_probe_failures": unreproduced, "unreproduced_process_deaths": unreproduced_deaths,
+            "huge_allocations": {"deliveries": sum(len(v) for v in huge.values()), "distinct_last_classes": len(huge),
+                                 "samples": [{"class": k, "alloc_mb": v[0][0], "delivery": v[0][1], "count": len(v)} for k, v in sorted(huge.items())[:8]],
+                                 "note": "deliveries (at most ~1 MiB of client bytes) during which the server process allocated 1 GiB or more (runtime.MemStats.TotalAlloc); observation, not a verdict: "
+                                         "on this machine the process survives the allocation, with less memory the same frame ends it (fatal error: out of memory)"},
+            "probe_unsolicited_notices_skipped": unsolicited[0],
             "child_death_texts": DEATH_TEXTS[:12], "child_startup_death_texts": STARTUP_DEATHS[:4],
             "process_death_confirmations": [{"signature": list(k), **(c or {})} for k, c in confirmations.items()],
             "selftest": stest,
@@ -550,8 +596,309 @@ def run_bytes(prop, tier, seed):
             "dies at the same site when the delivery is re-run alone, without the harness's recover, on a fresh single server instance (the batch children host several instances one after another, "
             "which share slock's package globals Config and defaultServerProtocol); unreproduced ones are listed in the evidence, not judged",
             "SHUTDOWN, SLAVEOF <host> <port> (stop / demote the server by design), replset CALL methods and follower-side protocol objects are not exercised",
-            "other connections = one long-lived binary connection (PING, LOCK, UNLOCK on db 126), one fresh text connection (PING, FLUSHDB of a missing db) and one fresh binary connection (INIT) probed after every delivery, 15 s budget each; a failed probe counts only if it reproduces when the delivery is re-run alone",
+            "other connections = one long-lived binary connection (PING; LOCK, UNLOCK of a fresh key on db 126 and on the dbs the generated classes work in: 0, 1, 3), one fresh text connection (PING, FLUSHDB of a missing db) and one fresh binary connection (INIT) probed after every delivery, 15 s budget each; a failed probe counts only if it reproduces when the delivery is re-run alone",
         ]
+        return out
+    finally:
+        if os.environ.get("VERIF_KEEP_SCRATCH") != "1":
+            shutil.rmtree(wd, ignore_errors=True)
+
+
+# ------------------------------------------------------------------ (7) the OUTPUT path: reply-size patterns at the writer buffer boundary
+# The class paths above decide what the server READS.  What it WRITES back goes, for pipelined binary frames, through a
+# 4096-byte per-connection buffer (spec/OutBuf.tla).  TLC checks the implementation-shaped model exhaustively at small
+# constants, then enumerates at the real constants every batch shape whose replies end at each position relative to the
+# boundary; each behaviour becomes request frames whose replies have exactly these sizes (lib/outbufconc.py), the real
+# Server.handle answers them, and spec/mon/MonOutBuf.tla judges the trace: the C13 clauses (panic / death / other
+# connection not served) and, as observation and refinement, completeness of the reply stream and the write boundaries.
+
+OB_MC_CFG = """SPECIFICATION Spec
+CONSTANTS
+  Cap = %(cap)d
+  H = %(h)d
+  Variant = "%(variant)s"
+  MaxD = %(maxd)d
+  MaxFrames = %(frames)d
+  MaxBatches = 2
+  MaxAsync = 1
+INVARIANTS TypeOK NoOverrun HeaderRoom Framing Delivered BufferedInOrder
+CHECK_DEADLOCK FALSE
+"""
+
+OB_GEN_CFG = """SPECIFICATION Spec
+CONSTANTS
+  Cap = 4096
+  H = 64
+  Variant = "coded"
+  DMin = 7
+  MaxData = %(maxdata)d
+  Leads = {%(leads)s}
+  Tails = {%(tails)s}
+  Residues = {%(residues)s}
+  BigSizes = {%(bigs)s}
+  Fillers = {%(fillers)s}
+  Mode = "%(mode)s"
+INVARIANTS TypeOK ModelSafe IndexAgrees Export
+CHECK_DEADLOCK FALSE
+"""
+
+OB_MON_CFG = """SPECIFICATION Spec
+CONSTANTS
+  Cap = 4096
+  H = 64
+  Variant = "coded"
+  TraceFile = "%(trace)s"
+  Props = {"C13"}
+POSTCONDITION TraceConsumed
+CHECK_DEADLOCK FALSE
+"""
+
+ALL_TAILS = ["e"] + ["".join(t) for n in (1, 2, 3) for t in __import__("itertools").product("bo", repeat=n)]
+
+def ob_tiers(tier, seed):
+    rnd = random.Random(f"{seed}:obres")
+    if tier == "quick":
+        res = sorted(set([16] + rnd.sample(range(2, 63), 3)))          # 16: k*(64+L) = 4048, the classic two-reply case
+        return dict(
+            mc=[dict(cap=16, h=4, maxd=10, frames=3, variant="coded")],
+            refute=[dict(cap=16, h=4, maxd=10, frames=2, variant="trailInBare"), dict(cap=16, h=4, maxd=10, frames=2, variant="preNoHeader")],
+            gens=[dict(mode="patterns", maxdata=2, leads=[0], tails=["e", "b", "bb", "bbb", "o", "ob"], residues=res, bigs=[3968, 4096, 70000], fillers=[900]),
+                  dict(mode="sweep", maxdata=4, leads=[0, 62], tails=["e", "b"], residues=sorted(set(rnd.sample(range(2, 63), 6))), bigs=[], fillers=[900])],
+            split_every=3, twin_every=8,
+            text_lens=[954, 1023, 1024, 1025, 1094, 4026, 4095, 4096, 4097, 4166, 65536 + 9], text_gets=[1, 3])
+    return dict(
+        mc=[dict(cap=16, h=4, maxd=10, frames=4, variant="coded"), dict(cap=15, h=3, maxd=11, frames=3, variant="coded")],
+        refute=[dict(cap=16, h=4, maxd=10, frames=2, variant=v) for v in ("trailInBare", "preNoHeader", "trailOffByOne")],
+        gens=[dict(mode="patterns", maxdata=3, leads=[0, 63], tails=ALL_TAILS, residues=[2, 16, 32, 47, 62], bigs=[3968, 4032, 4096, 70000], fillers=[900]),
+              dict(mode="sweep", maxdata=4, leads=[0, 1, 62, 63], tails=["e", "b", "bb", "bbb"], residues=list(range(2, 63)), bigs=[], fillers=[7, 900])],
+        split_every=1, twin_every=4,
+        text_lens=list(range(954, 1095)) + list(range(4026, 4167)) + [65536 + 9, 1048000], text_gets=[1, 3])
+
+def ob_generate(g, workdir, timeout):
+    cfg = OB_GEN_CFG % dict(maxdata=g["maxdata"], leads=", ".join(map(str, g["leads"])), tails=", ".join('"%s"' % t for t in g["tails"]),
+                            residues=", ".join(map(str, g["residues"])), bigs=", ".join(map(str, g["bigs"])), fillers=", ".join(map(str, g["fillers"])), mode=g["mode"])
+    r = vtlc.run_tlc(SPECDIRS[0], "OutBufGen", cfg, workdir, workers=min(4, engine.NCPU), timeout=timeout)
+    out = r["out"]
+    st = vtlc.parse_stats(out)
+    if r["rc"] == -9:
+        raise InfraError("OutBufGen timed out")
+    if st is None or "No error has been found" not in out:
+        keep = "\n".join(l for l in out.splitlines() if not l.startswith('"BEHAVIOUR'))
+        raise InfraError("OutBufGen: the generator / its model invariants did not complete cleanly (model problem, not a verdict on the code):\n" + keep[-3000:])
+    behs = [json.loads(json.loads(ln)[10:]) for ln in out.splitlines() if ln.startswith('"BEHAVIOUR ')]
+    behs.sort(key=lambda b: json.dumps(b, sort_keys=True))
+    return behs, st, r["wall"]
+
+def ob_modelcheck(c, workdir, timeout):
+    r = vtlc.run_tlc(SPECDIRS[0], "OutBufMC", OB_MC_CFG % c, workdir, workers=min(4, engine.NCPU), timeout=timeout)
+    if r["rc"] == -9:
+        raise InfraError("OutBufMC timed out")
+    st = vtlc.parse_stats(r["out"])
+    m = re.search(r"Invariant (\w+) is violated", r["out"])
+    if st is None or ("No error has been found" not in r["out"] and not m):
+        raise InfraError("OutBufMC did not complete:\n" + r["out"][-2000:])
+    return {"constants": c, "states": st["distinct"], "transitions": st["generated"], "violated": m.group(1) if m else None, "wall_s": round(r["wall"], 1)}
+
+def ob_monitor(traces, workdir, timeout=3000):
+    def one(arg):
+        i, tr = arg
+        return tr, vtlc.run_tlc(SPECDIRS, "MonOutBuf", OB_MON_CFG % dict(trace=tr), os.path.join(workdir, f"mon_{i}"), workers=1, timeout=timeout)
+    res = dict(viols=[], obs=[], divs=[], binds=[], models=[], summaries=[], states=0, lines=0)
+    with cf.ThreadPoolExecutor(max_workers=engine.NCPU) as ex:
+        for tr, r in ex.map(one, list(enumerate(traces))):
+            out = r["out"]
+            if r["rc"] == -9:
+                raise InfraError(f"TLC (MonOutBuf) timed out on {tr}")
+            st = vtlc.parse_stats(out)
+            if st is None or "No error has been found" not in out:
+                raise InfraError(f"TLC did not consume the trace {tr} completely (monitor / infrastructure problem, not a verdict):\n" + out[-3000:])
+            n = len(read_lines(tr))
+            if st["distinct"] != n + 1:
+                raise InfraError(f"trace {tr}: {n} lines but {st['distinct']} monitor states")
+            res["states"] += st["distinct"]; res["lines"] += n
+            for v in parse_tagged(out, "VIOL"):
+                v["file"] = tr
+                res["viols"].append(v)
+            res["obs"] += parse_tagged(out, "OBS"); res["divs"] += parse_tagged(out, "DIVERGE"); res["binds"] += parse_tagged(out, "BIND")
+            res["models"] += parse_tagged(out, "MODEL"); res["summaries"] += parse_tagged(out, "SUMMARY")
+    return res
+
+def ob_selftest(traces, workdir):
+    """corrupt ONE recorded field of an accepted line; MonOutBuf must answer with the matching tag"""
+    good = None
+    for tr in traces:
+        for ln in read_lines(tr):
+            e = json.loads(ln)
+            if e.get("e") == "d" and e["done"] and not e["panic"] and e["probe"] == "ok" and e["probe2"] == "ok" and e.get("ob") and e["ob"][-1].get("fam") == "bin" \
+               and e["ob"][-1]["pat"] and len(e["obs"][-1].get("frames", [])) >= 3 and any(f["d"] > 0 for f in e["obs"][-1]["frames"]) and len(e["obs"][-1].get("chunks", [])) >= 1:
+                good = e
+                break
+        if good:
+            break
+    if good is None:
+        return {"corruption": None, "rejected": None}
+    def cp():
+        c = json.loads(json.dumps(good)); c.pop("stacks", None)
+        return c
+    cases = []
+    a = cp(); a["panic"] = True; a["site"] = "selftest"; a["kind"] = "selftest"
+    cases.append(("field 'panic' of an accepted line set to true", a, "viols", "connection-goroutine-panic"))
+    b = cp(); b["probe"] = "noreply"
+    cases.append(("field 'probe' changed from ok to noreply", b, "viols", "other-connection-not-served"))
+    c = cp(); c["done"] = False; c["site"] = "selftest"; c["kind"] = "selftest"
+    cases.append(("field 'done' set to false (process died)", c, "viols", "server-process-died"))
+    d = cp(); fr = next(f for f in d["obs"][-1]["frames"] if f["d"] > 0); fr["d"] -= 1
+    cases.append(("recorded data length of one reply reduced by one byte", d, "obs", "reply-stream-corrupted"))
+    d2 = cp(); d2["obs"][-1]["frames"] = d2["obs"][-1]["frames"][:-1]
+    cases.append(("last recorded reply dropped", d2, "obs", "reply-stream-corrupted"))
+    f = cp(); f["obs"][-1]["chunks"][0] += 1
+    cases.append(("size of the first recorded write of the server increased by one", f, "divs", None))
+    g = cp(); g["ob"][-1]["replies"][0] = {"k": "lock", "d": 4000}
+    cases.append(("size of the first reply in the generator's behaviour changed (class sequence no longer the printed one)", g, "binds", None))
+    os.makedirs(workdir, exist_ok=True)
+    def one(arg):
+        i, (desc, ev, tag, code) = arg
+        p = os.path.join(workdir, f"ob_selftest_{i}.ndjson")
+        with open(p, "w") as fh:
+            fh.write(json.dumps(cp()) + "\n" + json.dumps(ev) + "\n")
+        r = ob_monitor([p], os.path.join(workdir, f"obst_{i}"))
+        got = [v for v in r[tag] if (code is None or v.get("code") == code) and (v.get("line", 2) == 2)]
+        clean = not [v for v in r["viols"] + r["obs"] + r["binds"] if v.get("line") == 1]
+        return {"corruption": desc, "expected": tag + (" " + code if code else ""), "rejected": bool(got) and clean}
+    with cf.ThreadPoolExecutor(max_workers=max(2, engine.NCPU // 2)) as ex:
+        res = list(ex.map(one, list(enumerate(cases))))
+    return {"corruption": "; ".join(r["corruption"] for r in res), "rejected": all(r["rejected"] for r in res), "cases": res, "line": {"name": good["name"], "cls": good["cls"][-1]}}
+
+def run_outbuf(prop, tier, seed, out, binp):
+    import outbufconc
+    wd = vbuild.scratch(f"vf_{prop}_ob_")
+    t_start = time.time()
+    try:
+        T = ob_tiers(tier, seed)
+        quick = tier == "quick"
+        # ---- (a) the model, exhaustively, at small constants (in the background while the real code runs)
+        pool = cf.ThreadPoolExecutor(max_workers=max(2, engine.NCPU // 2))
+        mc_jobs = [pool.submit(ob_modelcheck, c, os.path.join(wd, f"mc{i}"), 600 if quick else 3000) for i, c in enumerate(T["mc"] + T["refute"])]
+        # ---- (b) patterns at the real constants
+        behs, gen_runs = [], []
+        for gi, g in enumerate(T["gens"]):
+            bs, st, wall = ob_generate(g, os.path.join(wd, f"gen{gi}"), 600 if quick else 3000)
+            gen_runs.append(dict(g, behaviours=len(bs), states=st["distinct"], transitions=st["generated"], wall_s=round(wall, 1)))
+            behs += [(g["mode"], b) for b in bs]
+        if len(behs) < 50:
+            raise InfraError("OutBufGen printed too few behaviours")
+        # ---- (c) deliveries
+        delivs, kinds = [], {}
+        def add(d, kind):
+            delivs.append(d); kinds[kind] = kinds.get(kind, 0) + 1
+        for bi, (mode, b) in enumerate(behs):
+            rng = random.Random(f"{seed}:ob:{bi}")
+            add(outbufconc.bin_delivery(b, rng, f"ob-{bi}", kind=mode), "one-write")
+            n = len(b["replies"])
+            edge = any(("tight" in l or "exact" in l or "over" in l or "Edge" in l) for l in b["labels"])
+            if n <= 16 and edge and bi % T["split_every"] == 0:
+                # the same frames in two writes: first frame alone / a frame cut in the middle / all but the last / the last frame cut
+                for ci, cuts in enumerate([[64], [96], [64 * (n - 1)], [64 * n - 32]]):
+                    if 0 < cuts[0] < 64 * n and (ci < 2 or n > 2):
+                        add(outbufconc.bin_delivery(b, rng, f"ob-{bi}/s{ci}", cuts=cuts, kind="split"), "split")
+            if n <= 16 and bi % T["twin_every"] == 0:
+                add(outbufconc.bin_delivery(b, rng, f"ob-{bi}/u", cuts=[64 * i for i in range(1, n)], kind="unbuffered"), "frame-per-write")
+        ti = 0
+        for L in T["text_lens"]:
+            for ng in T["text_gets"]:
+                vlen = L - len("$%d\r\n\r\n" % L)             # reply = $<vlen>\r\n<value>\r\n; fix the digits of vlen
+                while len("$%d\r\n" % vlen) + vlen + 2 < L:
+                    vlen += 1
+                add(outbufconc.text_delivery(vlen, ng, random.Random(f"{seed}:obt:{ti}"), f"obt-{ti}", between=(ti % 2 == 1)), "text-get")
+                ti += 1
+            if L < 100000 and (quick or ti % 8 == 0):
+                add(outbufconc.text_lock_delivery(max(1, L - 153), 2, random.Random(f"{seed}:obl:{ti}"), f"obl-{ti}"), "text-lock")
+        random.Random(f"{seed}:obshuffle").shuffle(delivs)
+        samples = [{"name": d["name"], "classes": [s["cls"] for s in d["steps"]], "replies": d["steps"][-1]["ob"].get("replies"), "writes": d["steps"][-1]["ob"].get("writes")} for d in delivs[:3]]
+        rundir = os.path.join(wd, "run")
+        files = write_shards(delivs, rundir, max(engine.NCPU, min(NSHARDS, len(delivs) // 150)))
+        byname = {d["name"]: (files[j % len(files)][0], j // len(files)) for j, d in enumerate(delivs)}
+        ndeliv = len(delivs)
+        del delivs
+        t1 = time.time()
+        res = run_real(binp, files, rundir, linger=300)
+        run_wall = time.time() - t1
+        deaths = [d for _, ds in res for d in ds]
+        shard_traces = [job[1] for job, _ in res]
+        traces = []
+        nm = max(1, min(engine.NCPU, len(shard_traces)))
+        for i in range(nm):
+            mp = os.path.join(rundir, f"merged_{i}.ndjson")
+            with open(mp, "w") as fh:
+                for tr in shard_traces[i::nm]:
+                    for ln in read_lines(tr):
+                        if ln.strip():
+                            fh.write(ln + "\n")
+            traces.append(mp)
+        t2 = time.time()
+        mon = ob_monitor(traces, os.path.join(wd, "mon"))
+        mon_wall = time.time() - t2
+        if mon["binds"]:
+            raise InfraError("binding broken (output phase): " + json.dumps(mon["binds"][:3]))
+        if mon["models"]:
+            raise InfraError("the as-coded output model overruns on a generated pattern (model problem): " + json.dumps(mon["models"][:2]))
+        stest = ob_selftest(traces, os.path.join(wd, "selftest"))
+        if stest["rejected"] is not True:
+            raise InfraError("self-test failed: MonOutBuf accepted a corrupted trace: " + json.dumps(stest))
+        def lookup(name):
+            loc = byname.get(name)
+            if loc is None:
+                return None
+            with open(loc[0]) as fh:
+                for i, ln in enumerate(fh):
+                    if i == loc[1]:
+                        return json.loads(ln)
+            return None
+        groups, confirmations, unreproduced, unreproduced_deaths = judge(prop, mon["viols"], lookup, binp, wd, out)
+        mcs = [j.result() for j in mc_jobs]
+        pool.shutdown()
+        for c in mcs:
+            coded = c["constants"]["variant"] == "coded"
+            if coded and c["violated"]:
+                raise InfraError("the as-coded output model violates %s at small constants (model problem, not a verdict on the code)" % c["violated"])
+            if not coded and not c["violated"]:
+                raise InfraError("model self-check failed: the mutated variant %s satisfies every invariant" % c["constants"]["variant"])
+        labels, near, complete, steps = set(), set(), 0, 0
+        for sm in mon["summaries"]:
+            labels |= set(sm["labels"]); near |= set(sm["near"]); complete += sm["complete"]; steps += sm["steps"]
+        patterns = {" ".join(b["labels"]) for _, b in behs}
+        obskeys = {}
+        for o in mon["obs"]:
+            obskeys.setdefault((o["code"], o.get("junk", -1) >= 0), []).append(o)
+        cov = {
+            "model": "spec/OutBuf.tla (operators), spec/OutBufMC.tla (exhaustive, small constants), spec/OutBufGen.tla (patterns, real constants), spec/mon/MonOutBuf.tla (trace spec)",
+            "model_checking": {"invariants": ["TypeOK", "NoOverrun", "HeaderRoom", "Framing", "Delivered", "BufferedInOrder"],
+                               "as_coded": [c for c in mcs if c["constants"]["variant"] == "coded"],
+                               "mutated_variants_refuted": [{"variant": c["constants"]["variant"], "violated": c["violated"], "states": c["states"]} for c in mcs if c["constants"]["variant"] != "coded"]},
+            "generator_runs": gen_runs, "behaviours": len(behs), "distinct_patterns": len(patterns),
+            "deliveries": ndeliv, "deliveries_by_kind": kinds,
+            "position_classes_hit": sorted(labels), "positions_relative_to_boundary_hit": {"count": len(near), "min": min(near) if near else None, "max": max(near) if near else None,
+                                                                                          "inside_last_header": len([x for x in near if -64 <= x <= 0])},
+            "batches_replayed_by_model": steps, "batches_complete_and_as_generated": complete,
+            "observations": {"reply_stream_corrupted": len(mon["obs"]), "distinct": len(obskeys), "samples": [v[0] for v in list(obskeys.values())[:6]],
+                             "note": "a truncated / garbled / missing reply on the client's OWN connection is outside the statement of C13 (process alive, other connections served): observation, not a verdict"},
+            "refinement_divergences": {"count": len(mon["divs"]), "samples": mon["divs"][:6],
+                                       "note": "sizes of the server's writes / order of the replies vs the implementation-shaped model; never a verdict"},
+            "real_code": {"child_deaths": len(deaths), "wall_s": round(run_wall, 1)},
+            "monitor": {"lines": mon["lines"], "monitor_states": mon["states"], "wall_s": round(mon_wall, 1), "violation_lines": len(mon["viols"]), "distinct_violation_signatures": len(groups)},
+            "unreproduced_probe_failures": unreproduced, "unreproduced_process_deaths": unreproduced_deaths,
+            "process_death_confirmations": [{"signature": list(k), **(c or {})} for k, c in confirmations.items()],
+            "samples": samples, "selftest": stest, "wall_s": round(time.time() - t_start, 1),
+            "rule": "one evaluation = one delivery: a TLC-enumerated batch shape (reply kinds and sizes by position relative to the 4096-byte boundary) turned into pipelined request frames, "
+                    "answered by the real Server.handle, judged by the TLA+ trace spec MonOutBuf",
+        }
+        out.coverage["output_path"] = cov
+        out.coverage["evaluations"] = out.coverage.get("evaluations", 0) + ndeliv
+        out.coverage["states"] = out.coverage.get("states", 0) + sum(c["states"] for c in mcs) + sum(g["states"] for g in gen_runs)
+        out.coverage["transitions"] = out.coverage.get("transitions", 0) + sum(c["transitions"] for c in mcs) + sum(g["transitions"] for g in gen_runs)
+        out.coverage["traces_validated_against_impl"] = out.coverage.get("traces_validated_against_impl", 0) + mon["lines"]
+        if os.environ.get("VERIF_VERBOSE"):
+            print(f"[C13] output path: {len(behs)} behaviours, {ndeliv} deliveries, real code {run_wall:.1f}s, monitor {mon_wall:.1f}s, viols {len(mon['viols'])} obs {len(mon['obs'])} divs {len(mon['divs'])}, total {time.time()-t_start:.1f}s", flush=True)
         return out
     finally:
         if os.environ.get("VERIF_KEEP_SCRATCH") != "1":
@@ -565,13 +912,18 @@ def run_bytes(prop, tier, seed):
 # trace spec spec/mon/MonCrash.tla.
 
 def run(prop, tier, seed):
-    out = run_bytes(prop, tier, seed)
     import gen_core, shutil
     wd = vbuild.scratch(f"vf_{prop}_seq_")
     try:
         quick = tier == "quick"
-        scs = [gen_core.gen_scenario(seed + 1000, i) for i in range(270 if quick else 4000)] + [gen_core.gen_big(seed + 1000, i) for i in range(14 if quick else 140)]
         binp = vbuild.build_inpkg("server", wd)
+        only = os.environ.get("VERIF_C13_ONLY", "")                 # development aid: "ob" = output-path phase alone
+        if only == "ob":
+            out = checklib.Outcome(); out.level = "exploration"; out.coverage = {}
+            return run_outbuf(prop, tier, seed, out, binp)
+        out = run_bytes(prop, tier, seed, binp)
+        run_outbuf(prop, tier, seed, out, binp)
+        scs = [gen_core.gen_scenario(seed + 1000, i) for i in range(270 if quick else 4000)] + [gen_core.gen_big(seed + 1000, i) for i in range(14 if quick else 140)]
         res = engine.run_harness(binp, "TestVerifS", scs, os.path.join(wd, "run"))
         traces = []
         for fin, fout, p in res:
